@@ -134,11 +134,20 @@ def run(ck):
                   "the call at %s, made with the lock held, reaches %s which locks it again" % (hits[0][0].loc, hits[0][2].func.name), path=hits[0][1] if hits else None)
 
     # ---------------- R3 ----------------
+    def thread_test_var(fn):
+        """the local that records whether the caller is the loop thread: this_thread::get_id() == context().thread()"""
+        for x in fn.events("decl"):
+            t_ = (x.get("init") or {}).get("t") or ""
+            if "get_id" in t_ and "thread()" in t_ and "==" in t_:
+                return x["var"]
+        return None
+
     def off_thread_arm(fn):
         """successor block taken when !isInRightThread"""
+        tv = thread_test_var(fn)
         for b in fn.blocks.values():
             t = b.term
-            if t and t.get("k") == "if" and (t.get("core") or {}).get("v") == "isInRightThread":
+            if t and t.get("k") == "if" and tv is not None and (t.get("core") or {}).get("v") == tv:
                 return b, (b.succs[0] if t.get("neg") else b.succs[1]), (b.succs[1] if t.get("neg") else b.succs[0])
         return None, None, None
     for name, queue, table, direct in (("handleNewPeer", "peersQueue", "peers", "handlePeer"), ("armTimerMs", "timersQueue", "timers", "armTimerMsImpl")):
@@ -154,7 +163,7 @@ def run(ck):
         ck.ob("C09-R3", "%s/off-thread-arm" % name, len(pushes) == 1 and not touches, "%s:%s" % (fn.file, b.term.get("l")), fn,
               "foreign thread only enqueues into %s" % queue if not touches else "foreign thread touches %s directly at %s" % (table, touches[0].loc))
         # the thread test itself compares the caller's id with the loop thread
-        d = [x for x in fn.events("decl") if x.get("var") == "isInRightThread"]
+        d = [x for x in fn.events("decl") if x.get("var") == thread_test_var(fn)]
         okd = bool(d) and "get_id" in ((d[0].get("init") or {}).get("t") or "") and "thread()" in ((d[0].get("init") or {}).get("t") or "")
         ck.ob("C09-R3", "%s/thread-test" % name, okd, d[0].loc if d else fn.loc, fn, "isInRightThread = (this_thread::get_id() == context().thread())", nontrivial=False)
     # toWrite is the one table both the acceptor thread (handleNewPeer) and the worker touch: always under its lock
